@@ -32,7 +32,10 @@ def extract(tlc_out, path, limit, seed, to_driver=None):
     by_last = {}
     for s in uniq:
         last = s[-1]
-        key = (last.get("op"), last.get("kind"), last.get("to"), last.get("by"), last.get("arm"), len(s))
+        if isinstance(last, dict):
+            key = (last.get("op"), last.get("kind"), last.get("to"), last.get("by"), last.get("arm"), len(s))
+        else:
+            key = (tuple(last), len(s))
         by_last.setdefault(key, []).append(s)
     chosen = []
     groups = sorted(by_last.items(), key=lambda kv: str(kv[0]))
